@@ -7,6 +7,7 @@ import (
 
 	sdk "github.com/cosmos/cosmos-sdk/types"
 	govv1 "github.com/cosmos/cosmos-sdk/x/gov/types/v1"
+	banktypes "github.com/cosmos/cosmos-sdk/x/bank/types"
 	govtypes "github.com/cosmos/cosmos-sdk/x/gov/types"
 	minttypes "github.com/cosmos/cosmos-sdk/x/mint/types"
 	distrtypes "github.com/cosmos/cosmos-sdk/x/distribution/types"
@@ -121,12 +122,26 @@ func setupProfile(e *Env, o core.RunOpts) error {
 	case "C01":
 		return setupOracle(e, o)
 	case "C03", "C05", "C10":
+		if o.Prop != "C03" && e.Ch.Bool("cfg.tss.withtransition", 250) {
+			return setupTransition(e, o)
+		}
 		return setupTSS(e, o)
+	case "C13":
+		switch e.Ch.Intn("cfg.c13.profile", 4) {
+		case 0, 1:
+			return setupOracle(e, o)
+		case 2:
+			return setupTSS(e, o)
+		}
+		return setupTransition(e, o)
 	case "C04", "C18":
 		return setupTransition(e, o)
 	case "C09":
-		if e.Ch.Bool("cfg.c09.tss", 500) {
+		switch e.Ch.Intn("cfg.c09.profile", 5) {
+		case 0, 1:
 			return setupTSS(e, o)
+		case 2:
+			return setupTransition(e, o)
 		}
 		return setupOracle(e, o)
 	}
@@ -152,9 +167,19 @@ func setupOracle(e *Env, o core.RunOpts) error {
 	cfg := world.Config{Seed: o.Seed, ChainID: "simband", ValTokens: tokens, NumUsers: 5, Replicas: 1, GenesisTime: baseTime}
 	faults := drawFaults(e, false)
 	var dss []dsSpec
-	treas := world.NewAccount(o.Seed, "treasury")
+	withFees := o.Prop == "C13" || e.Ch.Bool("cfg.oracle.fees", 300)
+	feeTable := []sdk.Coins{sdk.NewCoins(sdk.NewInt64Coin("uband", 5)), sdk.NewCoins(), sdk.NewCoins(sdk.NewInt64Coin("uband", 3), sdk.NewInt64Coin("uusd", 2)), sdk.NewCoins(sdk.NewInt64Coin("uusd", 7))}
+	dsFees := map[int64]sdk.Coins{}
+	dsTreas := map[int64]string{}
 	for i := 0; i < 4; i++ {
-		dss = append(dss, dsSpec{Fee: sdk.NewCoins(), Treasury: treas, Exec: []byte(fmt.Sprintf("#!/bin/sh\necho %d", i))})
+		treas := world.NewAccount(o.Seed, fmt.Sprintf("treasury%d", i%3))
+		fee := sdk.NewCoins()
+		if withFees {
+			fee = feeTable[(i+e.Ch.Intn("cfg.oracle.feerot", 4))%4]
+		}
+		dss = append(dss, dsSpec{Fee: fee, Treasury: treas, Exec: []byte(fmt.Sprintf("#!/bin/sh\necho %d", i))})
+		dsFees[int64(i+1)] = fee
+		dsTreas[int64(i+1)] = treas.Addr.String()
 	}
 	cfg.GenesisMods = append(cfg.GenesisMods, govGenesis(4*time.Second), quietEconomy(), oracleGenesis(e, params, dss))
 	w, err := world.New(e.Ch, e.Log, e.St, cfg, o.Scratch)
@@ -170,7 +195,20 @@ func setupOracle(e *Env, o core.RunOpts) error {
 		act.ActivateP = 700
 	}
 	e.Actors = append(e.Actors, act)
-	e.Monitors = append(e.Monitors, NewC01(), &C09{})
+	c13 := &C13{DSFees: dsFees, DSTreas: dsTreas}
+	if withFees {
+		act.DSFees = dsFees
+		e.Desc("data source fees: %v", dsFees)
+		// two requesters are made poor so that balances run out midway
+		act.Requesters = w.Users[1:]
+		for _, i := range []int{1, 2} {
+			keep := sdk.NewCoins(sdk.NewInt64Coin("uband", int64(10+e.Ch.Intn("cfg.poor.uband", 60))), sdk.NewInt64Coin("uusd", int64(e.Ch.Intn("cfg.poor.uusd", 40))))
+			all := sdk.NewCoins(sdk.NewInt64Coin("uband", 1_000_000_000_000), sdk.NewInt64Coin("uusd", 1_000_000_000))
+			msg := banktypes.NewMsgSend(w.Users[i].Addr, w.Users[0].Addr, all.Sub(keep...))
+			w.Submit(&world.Intent{Signer: w.Users[i], Msgs: []sdk.Msg{msg}, Tag: "drain", Meta: &bankMeta{Msg: msg}})
+		}
+	}
+	e.Monitors = append(e.Monitors, NewC01(), &C09{}, c13)
 	e.MaxSteps = e.Ch.Range("cfg.steps", 30, 90)
 	if o.Thorough {
 		e.MaxSteps = e.Ch.Range("cfg.steps", 40, 160)
@@ -219,7 +257,7 @@ func setupTSS(e *Env, o core.RunOpts) error {
 	e.Actors = append(e.Actors,
 		&TSSActor{Pool: pool, ByzP: e.Ch.Intn("cfg.tss.byz", 500), ReactP: 100 + e.Ch.Intn("cfg.tss.react", 400), OverDEP: e.Ch.Intn("cfg.tss.overde", 120)},
 		&SigRequester{Rate: 200 + e.Ch.Intn("cfg.sigreq.rate", 600), MaxOpen: 1 + e.Ch.Intn("cfg.sigreq.maxopen", 5), Senders: w.Users[size:], LimitW: []int{70, 10, 10, 10}, RollbackP: 80})
-	e.Monitors = append(e.Monitors, &C05{}, &C03{}, &C10{}, &C09{WithTSS: true})
+	e.Monitors = append(e.Monitors, &C05{}, &C03{}, &C10{}, &C09{WithTSS: true}, &C13{WithTSS: true})
 	e.MaxSteps = e.Ch.Range("cfg.steps", 30, 90)
 	if o.Thorough {
 		e.MaxSteps = e.Ch.Range("cfg.steps", 40, 160)
@@ -282,7 +320,7 @@ func setupTransition(e *Env, o core.RunOpts) error {
 		dkg,
 		&TSSActor{Pool: pool, ByzP: e.Ch.Intn("cfg.tss.byz", 150), ReactP: 300, OverDEP: 0},
 		&SigRequester{Rate: 100 + e.Ch.Intn("cfg.sigreq.rate", 400), MaxOpen: 1 + e.Ch.Intn("cfg.sigreq.maxopen", 4), Senders: w.Users[poolSize:], LimitW: []int{85, 5, 5, 5}, RollbackP: 30})
-	e.Monitors = append(e.Monitors, &C04{}, &C18{}, &C05{}, &C03{}, &C10{}, &C09{WithTSS: true})
+	e.Monitors = append(e.Monitors, &C04{}, &C18{}, &C05{}, &C03{}, &C10{}, &C09{WithTSS: true}, &C13{WithTSS: true})
 	e.MaxSteps = e.Ch.Range("cfg.steps", 60, 150)
 	if o.Thorough {
 		e.MaxSteps = e.Ch.Range("cfg.steps", 80, 260)
